@@ -32,7 +32,7 @@ EXPLANATION = (
     "the sign bit of the compared width (the masked value is then negative and a set bit reads as clear); (6) a "
     "per-lane counter `acc = sub_epiN(acc, cmpeq(...))` is flushed after at most 2^(N-1)-1 iterations when the "
     "flush reads the lanes as signed (madd_epi16, cvtepi16), 2^N-1 when unsigned. "
-    "(7) a comparison on a vector filled by a zero-masking load is itself masked or its result is used only after `& mask` (R23.masked-tail): the lanes outside the tail hold 0 and would otherwise answer whenever the compared value is 0. Decides these clauses, not equality of outputs with the scalar definition; ARM kernels are "
+    "(7) a comparison on a vector filled by a zero-masking load is itself masked or its result is used only after `& mask` (R23.masked-tail): the lanes outside the tail hold 0 and would otherwise answer whenever the compared value is 0. (8) R10.aligned: a kernel that uses an alignment-requiring load, store or streaming instruction (_mm*_load_*/store_*/stream_* without `u`) is executed with every contract buffer at every element-aligned residue 0..63 and each such instruction must get an address aligned to its vector width - the scalar definition has no alignment precondition, so an aligned load without an alignment prologue is a fault the scalar kernel does not have. (state) the kernels keep no mutable file-scope or static state other than the dispatch tables' accepted lazy initialisation: a kernel's result is a function of its arguments, as the scalar definition's is - every mutable file-scope variable and static local under src/simd/ is thread-local, never written, or an accepted idempotent lazy table (rule shared with C07). Decides these clauses, not equality of outputs with the scalar definition; ARM kernels are "
     "not part of this build.")
 
 DP = "src/simd/dispatch.c"
@@ -442,6 +442,9 @@ def _esz(t):
 
 def run(ctx):
     P = ctx.P
+    ctx.clause("C15.9 the kernels keep no mutable file-scope or static state other than the dispatch tables' accepted lazy initialisation: a kernel's result is a function of its arguments, as the scalar definition's is (rule shared with C07)")
+    from . import C07 as _c07
+    ctx.count("file_scope_variables_examined", _c07.global_state(ctx, scope="src/simd/", rule="R7.kernel-state"))
     ctx.clause("C15.1 dispatch table complete, ordered, capability-guarded, slot/kernel/wrapper agreement, extern prototypes")
     ctx.clause("C15.2 access extents and output coverage of every x86 kernel and scalar fallback (skeleton execution)")
     ctx.clause("C15.3 match_copy kernels: block copies no wider than the guarded distance")
